@@ -24,7 +24,7 @@ use tantivy::directory::error::OpenReadError;
 use tantivy::directory::ManagedDirectory;
 use tantivy::{Directory, HasLen, Index, ReloadPolicy, TantivyError};
 use tvmon::hist::*;
-use tvmon::mondir::{file_kind, meta_referenced_files, MonCfg, MonDir};
+use tvmon::mondir::{file_kind, meta_referenced_files, MonCfg, MonDir, OpKind};
 use tvmon::report::*;
 use tvmon::rng::Rng;
 
@@ -148,6 +148,7 @@ struct Env<'a> {
     /// (damage kind, outcome) -> n
     tally: BTreeMap<(&'static str, &'static str), u64>,
     idx_seen: BTreeSet<(&'static str, &'static str)>,
+    footer_full: BTreeMap<&'static str, u32>,
     idx_rate: u64,
     copies: u64,
     idx_copies: u64,
@@ -445,9 +446,7 @@ fn damage_file(env: &mut Env, fc: &FileCtx, budget_bytes: usize) {
         for pos in ps {
             let mut vals = vec![other_byte(&mut rng, body[pos])];
             if exhaustive {
-                vals.push(other_byte(&mut rng, body[pos]));
-                vals.push(0x00);
-                vals.push(0xFF);
+                vals.push(if pos % 2 == 0 { 0x00 } else { 0xFF });
             }
             for val in vals {
                 if val != body[pos] {
@@ -637,9 +636,16 @@ fn damage_file(env: &mut Env, fc: &FileCtx, budget_bytes: usize) {
     // --- damage to the footer itself -------------------------------------------------------------------
     {
         let flen = footer.len();
+        // every bit of the footer for the first files of each kind in this index, then 3 bits per byte
+        let all_bits = env.footer_full.entry(fc.kind).or_insert(0);
+        *all_bits += 1;
+        let all_bits = *all_bits <= 2;
         for i in 0..flen {
+            let r = rng.usize_below(8);
             for bit in 0..8 {
-                probe(env, fc, "footer-bitflip", Class::Footer, with(&|v| v[n + i] ^= 1 << bit), i, bit);
+                if all_bits || bit == r || i + 8 >= flen {
+                    probe(env, fc, "footer-bitflip", Class::Footer, with(&|v| v[n + i] ^= 1 << bit), i, bit);
+                }
             }
         }
         for _ in 0..64 {
@@ -973,6 +979,13 @@ fn case(case: u64, rng: &mut Rng, rep: &mut Report, thorough: bool) {
     }
     let base_docs = Some(ex.reader.searcher().num_docs());
     let img: Image = mon.snapshot();
+    // paths whose writer was terminated (files abandoned by a cancelled merge never get a footer)
+    let terminated: BTreeSet<String> = mon
+        .log()
+        .into_iter()
+        .filter(|e| e.kind == OpKind::Terminate && e.ok)
+        .map(|e| e.path)
+        .collect();
     drop(ex);
     rep.eval();
     rep.count("indexes", 1);
@@ -1003,6 +1016,7 @@ fn case(case: u64, rng: &mut Rng, rep: &mut Report, thorough: bool) {
         seen: BTreeSet::new(),
         tally: BTreeMap::new(),
         idx_seen: BTreeSet::new(),
+        footer_full: BTreeMap::new(),
         idx_rate: if thorough { 1024 } else { 256 },
         copies: 0,
         idx_copies: 0,
@@ -1042,9 +1056,17 @@ fn case(case: u64, rng: &mut Rng, rep: &mut Report, thorough: bool) {
         if matches!(kind, "meta" | "managed" | "lock") {
             continue;
         }
-        // every file written through open_write carries a footer
-        env.rep.count("intact_files_checked", 1);
         let referenced = refs.contains(path);
+        if !terminated.contains(path) {
+            // never terminated: an abandoned write (cancelled merge); no footer is promised
+            env.rep.observe("unterminated_abandoned_files", kind);
+            if referenced {
+                env.viol(format!("intact:referenced-file-never-terminated:{kind}"), json!({"file": path}));
+            }
+            continue;
+        }
+        // every file written (and terminated) through open_write carries a footer
+        env.rep.count("intact_files_checked", 1);
         let wit = |x: Value| json!({"file": path, "file_kind": kind, "raw_len": raw.len(), "short_writes": short_writes, "referenced_by_meta": referenced, "observed": x});
         let foot = match parse_footer(raw) {
             Ok(f) => f,
